@@ -31,6 +31,9 @@ RadixPlain ==
   \cup {Rep(d, n) : d \in {49, 55, 57, 102}, n \in {100, 200, 255, 256, 257, 300, 307, 308, 309, 310, 311, 340, 341, 342, 343, 344, 400}}
   \cup {<<a, b>> \o Rep(d, n) : a \in {49, 50}, b \in {48, 54, 55, 56}, d \in {48, 55}, n \in {306, 307, 308, 339, 340, 341}}
   \cup {Rep(102, n) \o <<d>> \o Rep(48, 255 - n) : n \in {12, 13, 14}, d \in {48, 101, 102}}
+  \* long runs of LEADING zeros before the significant digits (leading zeros never change the value)
+  \cup {Rep(48, z) \o b : z \in {10, 20, 30, 31, 32, 33, 39, 40, 41, 42, 43, 47, 48, 64, 130},
+                           b \in (SeqsUpTo(Digs, 2) \ {<<>>}) \cup {<<55, 55, 55>>, <<49, 48>>, <<102, 102, 102>>}}
 RadixBroken ==
   UNION {{Ins(Rep(49, n), i, <<x>>) : i \in 0..n, x \in NonDigs} : n \in 0..MaxRep}
   \cup UNION {{Ins(Rep(48, n), i, <<x>>) : i \in 0..n, x \in NonDigs} : n \in 0..(IF Big THEN 48 ELSE 6)}
